@@ -149,6 +149,7 @@ func (ts *BackgroundTaskManager) InvokeBackgroundTask(do func(context.Context), 
 			case <-ch: // some prioritized tasks started; retry it later
 				verifhook.Point("task.cancel", ts)
 				cancel()
+				<-done // wait for the canceled task before releasing the semaphore and retrying
 				return false
 			case <-done: // All tasks completed
 			}
